@@ -213,6 +213,22 @@ DESC = {
                 "a namespace, version or subpath that is non-empty but only white space"),
     "r8c16-4": ("C16", "Same idea as r2c14-4, written independently: a checksum_is_canonical flag on Qualifiers that IndexMut forgets to reset survives into_builder().",
                 "build or parse a PURL with a checksum, into_builder(), replace the value through parts.qualifiers[\"checksum\"] = ..., build()"),
+    "r9c12-1": ("C12", "Hex is lower-cased at storage time (when parsing and in the miss branch of insert_raw) instead of in the text writer; the hit branch of insert_raw still stores the caller's string untouched.",
+                "an algorithm already present is set again with insert_raw under exactly its lower-case name, with upper-case A-F in the hex"),
+    "r9c12-2": ("C12", "The parser builds the qualifier list in bulk, sorted by the raw key (before the keys are lower-cased).",
+                "parser path, at least two qualifiers, key case disagreeing between raw and lower-cased order (Checksum=...&arch=x): build() does not find 'checksum', so it is not canonicalised and the typed accessor returns None"),
+    "r9c12-3": ("C12", "Display writes the checksum value without percent-encoding ('a normalised checksum needs no escaping').",
+                "an algorithm name containing '&', '%', '#' or '?', followed by to_string() / serde and a re-parse"),
+    "r9c12-4": ("C12", "Checksum::insert undoes 'double encoding': if the bytes are a non-empty even-length string of ASCII hex digits, that inner string is stored instead of its hex encoding.",
+                "insert with byte strings made entirely of the characters 0-9a-fA-F and of even length (484 of the 65536 two-byte values)"),
+    "r9c14-1": ("C14", "Display folds the namespace and name writes into one match; in the Some(namespace) arm the name is encoded with the namespace's escape set, so '/' in the name is not escaped.",
+                "a non-empty namespace AND a '/' in the name the hook wrote: the PURL reports name left/right but prints pkg:t/group/left/right"),
+    "r9c14-2": ("C14", "build() calls a new map-free Checksum::canonicalize that tests for duplicate algorithms with windows(2) before sorting.",
+                "a repeated algorithm whose two occurrences are not neighbours in the text (sha1:aa,md5:cc,SHA1:bb): accepted and reported as md5:cc,sha1:aa,sha1:bb - neither canonicalised nor refused"),
+    "r9c14-3": ("C14", "A trailing-slash leniency in the post-hook name check: when the name is empty, the last namespace segment becomes the name.",
+                "a hook that clears the name plus a non-empty namespace"),
+    "r9c14-4": ("C14", "Same idea as r9c12-3, written independently: the canonical checksum value is printed without percent-encoding.",
+                "the checksum qualifier and an algorithm name containing '&', '#', space, '+' or '%'"),
 }
 
 
@@ -236,6 +252,7 @@ def main():
     before6 = table(os.path.join(ROOT, "RESULTS-round6-before-strengthening.tsv"))
     before7 = table(os.path.join(ROOT, "RESULTS-round7-before-strengthening.tsv"))
     before8 = table(os.path.join(ROOT, "RESULTS-round8-before-strengthening.tsv"))
+    before9 = table(os.path.join(ROOT, "RESULTS-round9-before-strengthening.tsv"))
     for name, (prop, what, needs) in sorted(DESC.items()):
         d = os.path.join(ROOT, name)
         if not os.path.isdir(d):
@@ -250,10 +267,11 @@ def main():
         b6 = before6.get(name, {})
         b7 = before7.get(name, {})
         b8 = before8.get(name, {})
+        b9 = before9.get(name, {})
         meta = {
             "id": name,
             "property_broken": prop,
-            "origin": f"fresh sub-agent '{name.split('-')[0]}', change #{name.split('-')[1]}; it was given only the text of {prop} and a scratch worktree of /repo, nothing from /verif" + ("; round 2: it was also told which ideas round 1 had produced and asked for different ones" if name.startswith("r2") else "") + ("; round 3: it was also told which ideas rounds 1 and 2 had produced, and pointed at rarely exercised public API paths, call order, thresholds and continued use after a failure" if name.startswith("r3") else "") + ("; round 4: told the ideas of rounds 1-3 and asked to read the code paths end to end for small-effect defects" if name.startswith("r4") else "") + ("; round 5: told the ideas of rounds 1-4, with a focus per property: hash order / entry count / call sequences (C12), combinations of conversion, hook and input shape (C14), misbehaving sinks and sources only (C16)" if name.startswith("r5") else "") + ("; round 6: told the ideas of rounds 1-5 and asked to widen the search to the whole crate and to single build configurations" if name.startswith("r6") else "") + ("; round 7: told the ideas of rounds 1-6 and pointed at semantic slips (escaping sets, separators, parser/formatter and builder/parser asymmetries, type parameters, into_builder state, error paths)" if name.startswith("r7") else "") + ("; round 8: told the ideas of rounds 1-7" if name.startswith("r8") else ""),
+            "origin": f"fresh sub-agent '{name.split('-')[0]}', change #{name.split('-')[1]}; it was given only the text of {prop} and a scratch worktree of /repo, nothing from /verif" + ("; round 2: it was also told which ideas round 1 had produced and asked for different ones" if name.startswith("r2") else "") + ("; round 3: it was also told which ideas rounds 1 and 2 had produced, and pointed at rarely exercised public API paths, call order, thresholds and continued use after a failure" if name.startswith("r3") else "") + ("; round 4: told the ideas of rounds 1-3 and asked to read the code paths end to end for small-effect defects" if name.startswith("r4") else "") + ("; round 5: told the ideas of rounds 1-4, with a focus per property: hash order / entry count / call sequences (C12), combinations of conversion, hook and input shape (C14), misbehaving sinks and sources only (C16)" if name.startswith("r5") else "") + ("; round 6: told the ideas of rounds 1-5 and asked to widen the search to the whole crate and to single build configurations" if name.startswith("r6") else "") + ("; round 7: told the ideas of rounds 1-6 and pointed at semantic slips (escaping sets, separators, parser/formatter and builder/parser asymmetries, type parameters, into_builder state, error paths)" if name.startswith("r7") else "") + ("; round 8: told the ideas of rounds 1-7" if name.startswith("r8") else "") + ("; round 9: told the ideas of rounds 1-8 (the C16 agent of this round did not deliver)" if name.startswith("r9") else ""),
             "change": what,
             "needs_in_order_to_manifest": needs,
             "files": {"patch": "patch.diff", "demonstration": "demo.rs (drop into purl/tests/)", "author_notes": "notes.md"},
@@ -281,6 +299,11 @@ def main():
                 "verdict": r.get("verdict"),
             },
         }
+        if b9:
+            meta["checks_before_they_were_strengthened_for_round_9"] = {
+                "note": "result with the checks at commit 0341af4 (the version of the final consistent measurement, which met round 9)",
+                "C12": b9.get("C12"), "C14": b9.get("C14"), "C16": b9.get("C16"), "verdict": b9.get("verdict"),
+            }
         if b8:
             meta["checks_before_they_were_strengthened_for_round_8"] = {
                 "note": "result with the checks at commit 2b0ba2f (the version that met round 8)",
